@@ -15,7 +15,7 @@ from vt.props.c17 import match_multisets
 
 PROPERTY_ID = 'C19'
 
-RULE = ('Hypothesis draws the state dimension d (1..3), the number of diffusion columns d2 (1..3, non-square diffusion is a '
+RULE = ('Hypothesis draws the state dimension d (1..6), the number of diffusion columns d2 (1..3, non-square diffusion is a '
         'tracked class), 2..4 modes with 1..3 twice-differentiable basis functions each (constant, identity, monomial, Legendre, '
         'sin, cos, Gauss, and user-defined functions of two coordinates x_i x_j, sin(x_i + c x_j) with mixed second derivatives; explicit dimension), index tuples, data size m (4..10), drift present/absent (non-reversible / '
         'reversible), reweighting on/off, an absolute or relative threshold far below the singular values, the return option and '
@@ -181,7 +181,7 @@ def product_derivatives(specs, x):
 
 @st.composite
 def basis_case(draw, min_funcs=1):
-    d = draw(st.integers(1, 3))
+    d = draw(st.sampled_from([1, 2, 2, 3, 3, 4, 5, 6]))
     d2 = draw(st.integers(1, 3))
     p = draw(st.integers(2, 4))
     phi = [[fn_spec(draw, d) for _ in range(draw(st.integers(min_funcs, 3)))] for _ in range(p)]
